@@ -8,7 +8,10 @@ EXEC_LOG = []
 
 def _val(x):
     if isinstance(x, Command):
-        return x.result
+        r = x.result
+        if hasattr(r, "dtype") and r.dtype == bool:
+            return ("bools", tuple(bool(v) for v in r))        # a boolean mask, spelled out (results are compared with ==)
+        return r
     if isinstance(x, (list, tuple)):
         return tuple(_val(i) for i in x)
     return x
@@ -140,3 +143,13 @@ class BoolSrc(Command):
         import numpy
         EXEC_LOG.append(self.result_name)
         return numpy.array([True, False, bool(int(kwargs["V"]) % 2)])
+
+
+class DataOp(Command):
+    """A consumer that declares it needs *data* (an array) from its producers."""
+    inputs = {"D": params.ResultParameter(params.DataParameter(), required=False), "LD": params.ListParameter(params.ResultParameter(params.DataParameter()), required=False)}
+    output = params.DataParameter()
+
+    def execute(self, **kwargs):
+        EXEC_LOG.append(self.result_name)
+        return ("dataop", self.result_name, tuple((k, _val(kwargs[k])) for k in sorted(kwargs) if k != "Metadata"))
